@@ -100,7 +100,8 @@ def run(R):
                     'enc/dec keys of the two endpoints are not mirrored', W)
             R.check(A.client_aes_key_id == B.server_aes_key_id and B.client_aes_key_id == A.server_aes_key_id, f'keyid-not-expected-by-peer-{order}',
                     'the key id one side sends is not the one the peer expects', W)
-            for n in (lengths if i % 4 == 0 else [rng.choice(lengths[:9]), rng.randrange(0, 300)]):
+            # the first pair of each id class carries every plaintext length 0..80 (all residues of the 16-byte cipher block, several times over)
+            for n in (list(range(81)) + lengths if i < 3 else lengths if i % 4 == 0 else [rng.choice(lengths[:9]), rng.randrange(0, 300)]):
                 data = rng.randbytes(n)
                 for dirname, X, Y in (('a->b', A, B), ('b->a', B, A)):
                     st, pkt = mon.call(X.encrypt, data)
